@@ -48,7 +48,7 @@ void write_lweParams(const Ostream &F, const LweParams *lweparams) {
  */
 LweParams *read_new_lweParams(const Istream &F) {
     TextModeProperties *props = new_TextModeProperties_fromIstream(F);
-    if (props->getTypeTitle() != string("LWEPARAMS")) abort();
+    if (props == NULL || props->getTypeTitle() != string("LWEPARAMS")) abort();
     int32_t n = props->getProperty_int64_t("n");
     double alpha_min = props->getProperty_double("alpha_min");
     double alpha_max = props->getProperty_double("alpha_max");
@@ -258,7 +258,7 @@ void write_tLweParams(const Ostream &F, const TLweParams *tlweparams) {
  */
 TLweParams *read_new_tLweParams(const Istream &F) {
     TextModeProperties *props = new_TextModeProperties_fromIstream(F);
-    if (props->getTypeTitle() != string("TLWEPARAMS")) abort();
+    if (props == NULL || props->getTypeTitle() != string("TLWEPARAMS")) abort();
     int32_t N = props->getProperty_int64_t("N");
     int32_t k = props->getProperty_int64_t("k");
     double alpha_min = props->getProperty_double("alpha_min");
@@ -500,7 +500,7 @@ void write_tGswParams(const Ostream &F, const TGswParams *tgswparams) {
  */
 TGswParams *read_new_tGswParams_section(const Istream &F, const TLweParams *tlwe_params) {
     TextModeProperties *props = new_TextModeProperties_fromIstream(F);
-    if (props->getTypeTitle() != string("TGSWPARAMS")) abort();
+    if (props == NULL || props->getTypeTitle() != string("TGSWPARAMS")) abort();
     int32_t l = props->getProperty_int64_t("l");
     int32_t Bgbit = props->getProperty_int64_t("Bgbit");
     // ATTENTION ici!!!
@@ -744,7 +744,7 @@ void write_LweKeySwitchParameters_section(const Ostream &F, const LweKeySwitchKe
  */
 void read_lweKeySwitchParameters_section(const Istream &F, LweKeySwitchParameters *reps) {
     TextModeProperties *props = new_TextModeProperties_fromIstream(F);
-    if (props->getTypeTitle() != string("LWEKSPARAMS")) abort();
+    if (props == NULL || props->getTypeTitle() != string("LWEKSPARAMS")) abort();
     reps->n = props->getProperty_int64_t("n");
     reps->t = props->getProperty_int64_t("t");
     reps->basebit = props->getProperty_int64_t("basebit");
@@ -1022,7 +1022,7 @@ write_tfheGateBootstrappingProperParameters_section(const Ostream &F, const TFhe
 
 void read_tfheGateBootstrappingProperParameters_section(const Istream &F, int32_t &ks_t, int32_t &ks_basebit) {
     TextModeProperties *props = new_TextModeProperties_fromIstream(F);
-    if (props->getTypeTitle() != string("GATEBOOTSPARAMS")) abort();
+    if (props == NULL || props->getTypeTitle() != string("GATEBOOTSPARAMS")) abort();
     ks_t = props->getProperty_int64_t("ks_t");
     ks_basebit = props->getProperty_double("ks_basebit");
     delete_TextModeProperties(props);
